@@ -329,6 +329,7 @@ func replayPush(c *core.Ctx, lfsBin string, b *behaviour, idx int) (viol *core.V
 	// transport is a concretisation-only dimension: every third behaviour is replayed against a
 	// file:// remote, where git-lfs's own standalone agent is the server
 	transport := "http"
+	invocation := "in-clone"
 	if b.hash%3 == 0 {
 		transport = "file"
 	}
@@ -375,8 +376,17 @@ func replayPush(c *core.Ctx, lfsBin string, b *behaviour, idx int) (viol *core.V
 			w.logf("(the server stages uploads until verified; every verify call fails)")
 			w.Srv.Staging, w.Srv.FailVerify = true, true
 		}
-		w.logf("git %s", strings.Join(args, " "))
-		r := w.Env.RunIn(w.Clone, nil, nil, 120*time.Second, "git", args...)
+		// how Git is told where the repository is is a concretisation-only dimension: from inside the
+		// clone, or from elsewhere with --git-dir / --work-tree (Git then exports GIT_DIR and
+		// GIT_WORK_TREE to the hook and to git-lfs, as it does in linked work trees and submodules)
+		runDir := w.Clone
+		if (b.hash/3)%2 == 1 {
+			args = append([]string{"--git-dir", filepath.Join(w.Clone, ".git"), "--work-tree", w.Clone}, args...)
+			runDir = root
+			invocation = "git-dir"
+		}
+		w.logf("(in %s) git %s", runDir, strings.Join(args, " "))
+		r := w.Env.RunIn(runDir, nil, nil, 120*time.Second, "git", args...)
 		if vfail && w.Srv != nil {
 			w.Srv.Staging, w.Srv.FailVerify = false, false
 			w.Srv.DropStaged()
@@ -389,7 +399,7 @@ func replayPush(c *core.Ctx, lfsBin string, b *behaviour, idx int) (viol *core.V
 		afterAll := w.ServerAll()
 		refsAfter := w.RemoteRefs(branches)
 		mk := func(assertion, why string) *core.Violation {
-			return &core.Violation{Assertion: assertion, Fields: map[string]string{"mode": s.str("mode"), "verdict": s.str("verdict"), "transport": transport},
+			return &core.Violation{Assertion: assertion, Fields: map[string]string{"mode": s.str("mode"), "verdict": s.str("verdict"), "transport": transport, "invocation": invocation},
 				Detail: map[string]interface{}{"why": why, "behaviour": json.RawMessage(b.raw), "step": i, "exit": r.Code, "transport": transport,
 					"output": core.Tail(r.All(), 1500), "server_before": before, "server_after": after, "remote_refs_before": refsBefore,
 					"remote_refs_after": refsAfter, "commands": w.Log}}
